@@ -132,9 +132,20 @@ def _concrete_classes(repo: Repo, base: ClassInfo) -> list[ClassInfo]:
     out = []
     for c in [base, *repo.subclasses(base)]:
         names = {n for k in repo.mro(c) for n, m in k.methods.items() if m.is_abstract}
-        if all(not repo.lookup_method(c, n).is_abstract for n in names):
+        if all(not _abstract_on(repo, c, n) for n in names):
             out.append(c)
     return out
+
+
+def _abstract_on(repo: Repo, c: ClassInfo, name: str) -> bool:
+    """Is `name` still abstract on class c?  A method definition or a class level assignment (`name = partialmethod(...)`, an
+    alias of another method) earlier in the method resolution order implements it."""
+    for k in repo.mro(c):
+        if name in k.methods:
+            return k.methods[name].is_abstract
+        if name in k.class_attrs:
+            return False
+    return False
 
 
 def _ann(T, fi: FuncInfo, p: ast.arg):
@@ -191,6 +202,10 @@ def _value_of_type(it: Interp, t, roles: dict, key, pos: str = "key", src: str =
 
 def _pair_verdict(it: Interp, elem) -> str:
     """good | swapped | unknown for one abstract element of a bucket."""
+    if isinstance(elem, Ref) and elem.kind == "obj" and it.is_namedtuple(it.cell(elem).ci) and len(it.record_fields(it.cell(elem).ci)) == 2:
+        # a two-field NamedTuple is a pair
+        c = it.cell(elem)
+        elem = Tup(tuple(frozenset(c.fields.get(n, E)) for n in it.record_fields(c.ci)), c.site)
     if not isinstance(elem, Tup) or len(elem.items) != 2:
         return "unknown"
     a = {s.roles for s in it.scalars(elem.items[0])}
@@ -226,6 +241,7 @@ def run_r2(repo: Repo, res: Result) -> None:
         for entry in entries:
             verdicts: dict[str, dict[str, list]] = {f: {"good": [], "swapped": [], "unknown": []} for f in fields}
             dropped: dict[str, set] = {f: set() for f in fields}
+            lost_track: list[str] = []
             init = repo.lookup_method(cls, "__init__")
             filters_by_design = init is not None and any(any(m[0] == "cls" and m[1].rsplit(".", 1)[-1] == "LayerMapping" for m in members(_ann(T, init, p))) for p in init.params[1:])
             for world in (True, False):
@@ -272,6 +288,7 @@ def run_r2(repo: Repo, res: Result) -> None:
                     rv = it.call_method(det, entry.name, args, f"run-{world}")
                 except (RuntimeError, RecursionError, KeyError, AttributeError, TypeError, IndexError, ValueError) as e:
                     raise AnalysisError(f"{entry.fq}: abstract interpretation failed ({type(e).__name__}: {e})") from e
+                lost_track += [t for t in it.tops if t not in lost_track]
                 objs = [sh for sh in rv if isinstance(sh, Ref) and sh.kind == "obj" and it.cell(sh).ci is not None and it.cell(sh).ci.fq == viol.fq]
                 if not objs:
                     n += len(fields)
@@ -291,6 +308,11 @@ def run_r2(repo: Repo, res: Result) -> None:
                                 verdicts[f]["unknown"].append((kind, sh.why))
                             elif not (isinstance(sh, Const) and sh.value is None):
                                 verdicts[f]["unknown"].append((kind, f"bucket value is not a collection: {type(sh).__name__}"))
+            if lost_track and not any(v["good"] or v["swapped"] or v["unknown"] for v in verdicts.values()):
+                # no pair reached any bucket and the interpreter met something it does not model: that is no verdict
+                n += len(fields)
+                res.undecide("C03.R2", f"{entry.relpath}::{cls.name}.{entry.name}::buckets", f"no pair of the query results reached a bucket in the abstract evaluation, which lost track ({'; '.join(lost_track[:2])})", where(entry, entry.node))
+                continue
             for f in fields:
                 v = verdicts[f]
                 construct = f"{cls.module.relpath}::{cls.name}.{entry.name}::orientation of {f}"
@@ -329,6 +351,29 @@ def run_r2(repo: Repo, res: Result) -> None:
 
 
 # --------------------------------------------------------------------------- R3 / R4
+
+
+def _field_matters(it: Interp, ci: ClassInfo, field: str, line: Sc) -> bool:
+    """Does a field of the message record that the line was not formatted from distinguish lines?  Not when everything it carries
+    is in the line anyway (a sort key made of subject and object) or when it only ever holds flags / numbers / None; text of its own
+    (the verb) does."""
+    from .c03_absint import ObjCell
+
+    seen = False
+    for c in it.cells.values():
+        if not (isinstance(c, ObjCell) and c.ci is not None and c.ci.fq == ci.fq and field in c.fields):
+            continue
+        seen = True
+        v = c.fields[field]
+        if any(isinstance(sh, Const) and isinstance(sh.value, str) and sh.value for sh in v):
+            return True
+        for sc in it.scalars(v):
+            content = {x for x in sc.srcs if not str(x).startswith("fld:")}
+            if not sc.roles and not content:
+                return True  # text computed from constants and flags
+            if not sc.roles <= line.roles:
+                return True
+    return not seen
 
 
 def run_r3_r4(repo: Repo, res: Result) -> None:
@@ -409,7 +454,7 @@ def run_r3_r4(repo: Repo, res: Result) -> None:
                             if ci is None:
                                 continue
                             for a in ci.ann_attrs:
-                                if f"fld:{rc}.{a}" not in s.srcs:
+                                if f"fld:{rc}.{a}" not in s.srcs and _field_matters(it, ci, a, s):
                                     lacks.append(f"{rc}.{a}")
                         if lacks:
                             incomplete_text.setdefault(", ".join(lacks), set()).update(which)
@@ -455,6 +500,158 @@ def run_r3_r4(repo: Repo, res: Result) -> None:
 # --------------------------------------------------------------------------- R5
 
 
+def _roots(it: Interp, ids) -> frozenset:
+    """Iteration identities with every iteration over something that stems from another iteration (the pairs of one search result,
+    the parts of one key, a filtered copy of the key set, the items a generator yielded per key) replaced by the iteration(s) it
+    stems from: they all stand for 'the work done for one key'."""
+    out: set = set()
+
+    def walk(x, seen):
+        ps = it.loop_parents.get(x, set()) - seen - {x}
+        if not ps:
+            out.add(x)
+            return
+        for p_ in ps:
+            walk(p_, seen | {x})
+
+    for x in ids:
+        walk(x, frozenset())
+    return frozenset(out)
+
+
+def _plain(srcs) -> set:
+    """Provenance tags that name parameters of the query (without the bookkeeping tags of this rule)."""
+    return {x for x in srcs if x not in ("search", "batched") and not str(x).startswith(("fld:", "pos:"))}
+
+
+def _found_pair(el: Sc) -> Tup:
+    """(importer, importee) as a search reports it; the position tags tell whether a query hands the pairs on as they are."""
+    from dataclasses import replace as _replace
+
+    return Tup((V(_replace(el, srcs=el.srcs | {"pos:importer"})), V(_replace(el, srcs=el.srcs | {"pos:importee"}))), "search result")
+
+
+def _deep_scalars(it: Interp, v, depth: int = 0) -> list:
+    """Scalars inside a value, also keys and values of dictionaries."""
+    out: list = []
+    if depth > 5:
+        return out
+    for sh in v:
+        if isinstance(sh, Ref) and sh.kind == "dict":
+            for k, x in list(it.cell(sh).entries):
+                out += _deep_scalars(it, k, depth + 1) + _deep_scalars(it, x, depth + 1)
+        elif isinstance(sh, Ref) and sh.kind == "coll":
+            out += _deep_scalars(it, it.elems(V(sh)), depth + 1)
+        elif isinstance(sh, Tup):
+            for x in sh.items:
+                out += _deep_scalars(it, x, depth + 1)
+        elif isinstance(sh, Sc):
+            out.append(sh)
+    return out
+
+
+_MUTATING = {"add", "update", "discard", "remove", "pop", "clear", "append", "extend", "insert", "difference_update", "intersection_update", "symmetric_difference_update", "setdefault", "popitem", "sort", "reverse", "appendleft", "extendleft", "popleft"}
+
+
+def _mutates_param(repo: Repo, fn: FuncInfo, pname: str, depth: int = 0):
+    """(function, node) of a statement of `fn` (or of a repository function it hands the value on to) that changes the object
+    bound to parameter `pname` in place - through the parameter or a local alias of it; None when there is none."""
+    if depth > 3 or pname not in fn.param_names:
+        return None
+    aliases = {pname}
+    nodes = list(own_nodes(fn.node))
+
+    def is_alias(e) -> bool:
+        if isinstance(e, ast.Name):
+            return e.id in aliases
+        if isinstance(e, ast.IfExp):
+            return is_alias(e.body) or is_alias(e.orelse)
+        if isinstance(e, ast.BoolOp):
+            return any(is_alias(x) for x in e.values)
+        if isinstance(e, ast.NamedExpr):
+            return is_alias(e.value)
+        return False
+
+    changed = True
+    while changed:
+        changed = False
+        for n in nodes:
+            tgt = None
+            if isinstance(n, ast.Assign) and len(n.targets) == 1 and isinstance(n.targets[0], ast.Name) and is_alias(n.value):
+                tgt = n.targets[0].id
+            elif isinstance(n, ast.AnnAssign) and isinstance(n.target, ast.Name) and n.value is not None and is_alias(n.value):
+                tgt = n.target.id
+            elif isinstance(n, ast.NamedExpr) and isinstance(n.target, ast.Name) and is_alias(n.value):
+                tgt = n.target.id
+            if tgt is not None and tgt not in aliases:
+                aliases.add(tgt)
+                changed = True
+    # a name that is re-bound to something that is not the parameter's object (`xs = set(xs)`, `xs = xs - {x}`) stands for a
+    # private object from there on: changes made through it further down do not reach the caller (textual order; a VIOLATION
+    # needs a change that certainly is one)
+    rebound: dict[str, int] = {}
+    for n in getattr(fn.node, "body", []):  # only statements that every path through the function executes
+        tgt = None
+        if isinstance(n, ast.Assign) and len(n.targets) == 1 and isinstance(n.targets[0], ast.Name) and not is_alias(n.value):
+            tgt = n.targets[0].id
+        elif isinstance(n, ast.AnnAssign) and isinstance(n.target, ast.Name) and n.value is not None and not is_alias(n.value):
+            tgt = n.target.id
+        if tgt in aliases:
+            rebound[tgt] = min(rebound.get(tgt, n.lineno), n.lineno)
+    # ... unless the name is (again) bound to the parameter's object further down (`else: xs = param`)
+    for n in nodes:
+        tgt = None
+        if isinstance(n, ast.Assign) and len(n.targets) == 1 and isinstance(n.targets[0], ast.Name) and is_alias(n.value):
+            tgt = n.targets[0].id
+        elif isinstance(n, ast.AnnAssign) and isinstance(n.target, ast.Name) and n.value is not None and is_alias(n.value):
+            tgt = n.target.id
+        if tgt in rebound and n.lineno >= rebound[tgt]:
+            del rebound[tgt]
+
+    def shared_at(e, line: int) -> bool:
+        if isinstance(e, ast.Name):
+            return e.id in aliases and not (e.id in rebound and line > rebound[e.id])
+        if isinstance(e, ast.IfExp):
+            return shared_at(e.body, line) or shared_at(e.orelse, line)
+        if isinstance(e, ast.BoolOp):
+            return any(shared_at(x, line) for x in e.values)
+        if isinstance(e, ast.NamedExpr):
+            return shared_at(e.value, line)
+        return False
+
+    for n in nodes:
+        line = getattr(n, "lineno", 0)
+        if isinstance(n, ast.Call) and isinstance(n.func, ast.Attribute) and n.func.attr in _MUTATING and shared_at(n.func.value, line):
+            return fn, n
+        if isinstance(n, ast.AugAssign) and isinstance(n.target, ast.Name) and shared_at(n.target, line):
+            return fn, n
+        if isinstance(n, (ast.Subscript,)) and isinstance(n.ctx, (ast.Store, ast.Del)) and shared_at(n.value, line):
+            return fn, n
+    for n in nodes:
+        if not isinstance(n, ast.Call):
+            continue
+        callee = None
+        if isinstance(n.func, ast.Name):
+            fq = repo.resolve_name(fn.module, n.func)
+            if fq:
+                m, _, a = fq.rpartition(".")
+                om = repo.modules.get(m)
+                callee = om.functions.get(a) if om is not None else None
+        if callee is None or callee.fq == fn.fq:
+            continue
+        for i, a in enumerate(n.args):
+            if is_alias(a) and i < len(callee.param_names):
+                r = _mutates_param(repo, callee, callee.param_names[i], depth + 1)
+                if r is not None:
+                    return r
+        for k in n.keywords:
+            if k.arg and is_alias(k.value):
+                r = _mutates_param(repo, callee, k.arg, depth + 1)
+                if r is not None:
+                    return r
+    return None
+
+
 def run_r5(repo: Repo, res: Result) -> None:
     """The three graph queries of the evaluable: one independent search per key over the complete key set, stored under that key."""
     T = types_of(repo)
@@ -484,14 +681,36 @@ def run_r5(repo: Repo, res: Result) -> None:
             calls: list[dict] = []
 
             def make_intr(fn: FuncInfo, calls=calls):
+                batched = fn.node.returns is not None and any(x[0] == "b" and x[1] == "dict" for x in members(T.ann(fn.module, fn.node.returns)))
+
                 def intr(it: Interp, args, kwargs, node, fr):
                     allv = [*args, *kwargs.values()]
                     key_scalars = [sc for a in allv for sh in a for sc in ([sh] if isinstance(sh, Sc) else [])]
                     eids = frozenset().union(*[sc.eids for sc in key_scalars]) if key_scalars else frozenset()
                     srcs = frozenset().union(*[sc.srcs for sc in key_scalars]) if key_scalars else frozenset()
-                    calls.append({"fn": fn, "args": allv, "node": node, "fr": fr, "live": frozenset(it.active)})
+                    if not key_scalars:
+                        # no module of its own: a helper that answers for a whole collection (sub trees of all objects, ...)
+                        srcs = frozenset(x for a in allv for sc in _deep_scalars(it, a) for x in _plain(sc.srcs))
+                    pnames = [p for p in fn.param_names if not (fn.node.args.vararg and p == fn.node.args.vararg.arg)]
+                    calls.append({"fn": fn, "args": allv, "names": [*pnames[: len(args)], *([None] * max(0, len(args) - len(pnames))), *kwargs.keys()], "node": node, "fr": fr, "live": frozenset(it.active)})
+                    if batched:
+                        # a search that answers for many modules at once (`-> dict[module, list of imports]`): one list per
+                        # member of the collections / indexes it is given; whoever reads the dictionary by a key (or iterates its
+                        # items) gets the list of that key
+                        msrcs: set = set()
+                        for a in allv:
+                            for sh in a:
+                                if isinstance(sh, Ref) and sh.kind in ("coll", "dict"):
+                                    for sc in _deep_scalars(it, V(sh)):
+                                        msrcs |= _plain(sc.srcs)
+                        if msrcs:
+                            member = Sc(srcs=frozenset(msrcs))
+                            el = Sc(srcs=srcs | frozenset(msrcs) | {"search", "batched"}, eids=eids)
+                            d = it.dict_((id(node), fr.inv, "search-dict"), it.site(fr, node))
+                            it.store_entry(d, V(member), V(it.coll((id(node), fr.inv, "search"), it.site(fr, node), V(_found_pair(el)))))
+                            return V(d)
                     el = Sc(srcs=srcs | {"search"}, eids=eids)
-                    return V(it.coll((id(node), fr.inv, "search"), it.site(fr, node), V(Tup((V(el), V(el)), "search result"))))
+                    return V(it.coll((id(node), fr.inv, "search"), it.site(fr, node), V(_found_pair(el))))
 
                 return intr
 
@@ -514,6 +733,7 @@ def run_r5(repo: Repo, res: Result) -> None:
             clean = not it.tops
             # (a) what every search receives
             extra: list[str] = []
+            unmodelled: list[str] = []
             partial: list[str] = []
             used: set = set()
             for c in calls:
@@ -527,25 +747,56 @@ def run_r5(repo: Repo, res: Result) -> None:
                         if isinstance(sh, Opaque) or (isinstance(sh, Const) and sh.value is None):
                             continue
                         if isinstance(sh, Sc):
-                            if sh.srcs and sh.srcs <= pset and sh.eids:
-                                used |= sh.srcs
+                            if _plain(sh.srcs) and _plain(sh.srcs) <= pset and "search" not in sh.srcs and sh.eids:
+                                used |= sh.srcs & pset
                                 partial += [f"{mk[2]} [{mk[1]}]" for mk in sh.marks if mk[0] == "part"]
                             else:
                                 extra.append(f"`{norm(c['node'], 80)}`: a scalar argument that is not an element of {sorted(pset)}")
                         elif isinstance(sh, Ref) and sh.kind == "coll":
                             els = it.elems(V(sh))
-                            scs = it.scalars(els)
-                            if scs and all(isinstance(x, Sc) for x in els) and all(sc.srcs and sc.srcs <= pset and not (sc.eids & c["live"]) for sc in scs):
+                            scs = _deep_scalars(it, els)
+                            plain = lambda sc: _plain(sc.srcs)  # noqa: E731
+                            if scs and all(isinstance(x, Sc) for x in els) and all(_plain(sc.srcs) and _plain(sc.srcs) <= pset and "search" not in sc.srcs and not (sc.eids & c["live"]) for sc in scs):
                                 for sc in scs:
-                                    used |= sc.srcs
-                                    partial += [f"{mk[2]} [{mk[1]}]" for mk in sc.marks if mk[0] == "part"]
+                                    used |= sc.srcs & pset
+                                    partial += [f"a search is handed an incomplete set of the given modules - {mk[2]} [{mk[1]}]" for mk in sc.marks if mk[0] == "part"]
+                                pname = c["names"][ai] if ai < len(c["names"]) else None
+                                mut = _mutates_param(repo, c["fn"], pname) if pname and c["live"] and not (it.cell(sh).born & c["live"]) else None
+                                if mut is not None:
+                                    extra.append(f"`{texts[ai] if ai < len(texts) else '?'}`, one object for the whole batch, which {c['fn'].name} changes (`{norm(mut[1], 60)}` at {mut[0].relpath}:{getattr(mut[1], 'lineno', 0)}) in `{norm(cn, 80)}`")
+                            elif scs and all(sc.srcs and plain(sc) and plain(sc) <= pset and not (sc.eids & c["live"]) for sc in scs):
+                                # computed once per query from the complete module sets (the sub trees of all objects, ...): the one
+                                # object is handed to every search of the batch - fine as long as no search changes it
+                                pname = c["names"][ai] if ai < len(c["names"]) else None
+                                mut = _mutates_param(repo, c["fn"], pname) if pname else None
+                                if mut is not None:
+                                    extra.append(f"`{texts[ai] if ai < len(texts) else '?'}`, a collection computed once for the whole batch, which {c['fn'].name} changes (`{norm(mut[1], 60)}` at {mut[0].relpath}:{getattr(mut[1], 'lineno', 0)}) in `{norm(cn, 80)}`")
+                                elif pname is None:
+                                    unmodelled.append(f"`{norm(cn, 80)}`: a collection computed once for the whole batch is passed to a parameter that could not be identified")
+                                else:
+                                    for sc in scs:
+                                        used |= sc.srcs & pset
+                                        partial += [f"a search is handed an incomplete set of the given modules - {mk[2]} [{mk[1]}]" for mk in sc.marks if mk[0] == "part"]
                             else:
                                 extra.append(f"`{norm(c['node'], 80)}`: a collection that is not one of the complete module sets {sorted(pset)}")
+                        elif isinstance(sh, Ref) and sh.kind == "dict":
+                            # an index computed beforehand from the complete module sets (node -> modules it was requested for)
+                            scs = _deep_scalars(it, V(sh))
+                            if scs and all(sc.srcs and _plain(sc.srcs) <= pset and not ((sc.eids - sc.gone) & c["live"]) for sc in scs):
+                                for sc in scs:
+                                    used |= sc.srcs & pset
+                                    partial += [f"a search is handed an incomplete set of the given modules - {mk[2]} [{mk[1]}]" for mk in sc.marks if mk[0] == "part"]
+                                pname = c["names"][ai] if ai < len(c["names"]) else None
+                                mut = _mutates_param(repo, c["fn"], pname) if pname and c["live"] and not (it.cell(sh).born & c["live"]) else None
+                                if mut is not None:
+                                    extra.append(f"`{texts[ai] if ai < len(texts) else '?'}`, one dictionary for the whole batch, which {c['fn'].name} changes (`{norm(mut[1], 60)}` at {mut[0].relpath}:{getattr(mut[1], 'lineno', 0)}) in `{norm(cn, 80)}`")
+                            else:
+                                extra.append(f"`{norm(c['node'], 80)}`: a dictionary that is not computed from the complete module sets {sorted(pset)} alone")
                         else:
                             extra.append(f"`{norm(c['node'], 80)}`: an argument of kind {type(sh).__name__}{' (' + sh.why + ')' if isinstance(sh, Top) else ''}")
-            if not clean and (extra or sorted(pset - used)):
+            if (not clean and (extra or sorted(pset - used))) or (unmodelled and not extra):
                 n += 3
-                res.undecide("C03.R5", f"{head}::searches", f"the abstract evaluation met constructs it does not model ({'; '.join(it.tops[:2])})", where(impl, impl.node))
+                res.undecide("C03.R5", f"{head}::searches", f"the abstract evaluation met constructs it does not model ({'; '.join([*unmodelled, *it.tops][:2])})", where(impl, impl.node))
                 continue
             n += 1
             ok = not extra
@@ -567,21 +818,34 @@ def run_r5(repo: Repo, res: Result) -> None:
                         if not (isinstance(sh, Ref) and sh.kind == "coll"):
                             bad_vals.append("the value stored for a key is not the list of imports found by a search")
                             continue
+                        for el in it.elems(V(sh)):
+                            if isinstance(el, Tup) and len(el.items) == 2:
+                                first = {x for sc in it.scalars(el.items[0]) for x in sc.srcs if str(x).startswith("pos:")}
+                                second = {x for sc in it.scalars(el.items[1]) for x in sc.srcs if str(x).startswith("pos:")}
+                                if first == {"pos:importee"} and second == {"pos:importer"}:
+                                    bad_vals.append(f"the pairs found by the search are stored as (importee, importer) (pair built at {el.site or '?'}): the callers of the query read them as (importer, importee)")
                         vs = it.scalars(it.elems(V(sh)))
                         if not vs or not all("search" in sc.srcs for sc in vs):
                             bad_vals.append("the value stored for a key is not (only) the result of a graph search")
                             continue
-                        veids = frozenset().union(*[sc.eids for sc in vs])
+                        veids = frozenset().union(*[sc.eids | sc.assoc for sc in vs])
+                        # iterations over something that stems from another iteration (the pairs of one search result, the parts of one
+                        # key, the items a generator yielded per key) are part of that iteration's work
+                        veids, keids = _roots(it, veids), _roots(it, keids)
                         vsrcs = frozenset().union(*[sc.srcs & pset for sc in vs])
                         key_loops = {x for x in keids if x in it.loop_eids}
+                        origin = _roots(it, it.cell(sh).origin)
                         if vsrcs != ksrcs:
                             bad_vals.append(f"the key derives from {sorted(ksrcs)}, the search stored under it was run for {sorted(vsrcs)}")
-                        elif key_loops and not (it.cell(sh).born & key_loops):
+                        elif (vloops := {x for x in veids if x in it.loop_eids} & key_loops) and not (origin & vloops):
+                            # the list outlives the iterations (over the keys) whose search results it holds
                             bad_vals.append("the list stored under a key is shared between the keys (created outside the loop over the keys): it also holds the imports found for other keys")
+                        elif key_loops and veids and not (veids & it.loop_eids):
+                            bad_vals.append("the list stored under every key is the result of one search for a fixed module (selected by position, not by the loop over the keys)")
                         elif veids != keids or not keids:
                             unsure.append("the search result and the key it is stored under could not be matched (they stem from different iterations)")
                         key_marks += [f"{mk[2]} [{mk[1]}]" for sc in vs for mk in sc.marks if mk[0] == "part"]
-                        key_marks += [f"{mk[2]} [{mk[1]}]" for mk in it.cell(sh).part]
+                        key_marks += [f"{mk[2]} [{mk[1]}]" for mk in it.effective_part(it.cell(sh))]
             n += 1
             missing = sorted(pset - used)
             ok = not key_marks and not bad_keys and not missing
@@ -663,7 +927,7 @@ def run_r6(repo: Repo, res: Result) -> None:
             head = f"{entry.relpath}::{cls.name}.{entry.name}"
             try:
                 it.call_method(matcher, entry.name, [V(Sc(srcs=frozenset({"evaluable#1"}))) if _mentions_class(_ann(T, entry, p), proto.fq) else V(Opaque(p.arg)) for p in entry.params[1:]], "call-1")
-                consulted = [nm for nm, srcs in it.scalar_calls if "evaluable#1" in srcs]
+                consulted = [c[0] for c in it.scalar_calls if "evaluable#1" in c[1]]
                 stale = {(k, f) for (k, f) in it.writes if _derives(it, it.cells[k].fields.get(f, E), "evaluable#1")}
                 it.stale = set(stale)
                 it.stale_reads = []
@@ -675,6 +939,13 @@ def run_r6(repo: Repo, res: Result) -> None:
                 res.undecide("C03.R6", f"{head}::second application", f"the abstract evaluation never saw the evaluable being queried ({'; '.join(it.tops[:2]) or 'no call on it'})", where(entry, entry.node))
                 continue
             reads = it.stale_reads
+            # whatever is handed to the second evaluable must not stem from the first one (caches outside the matcher: module level
+            # dictionaries, the requirement objects, class attributes)
+            crossed = [c for c in it.scalar_calls if "evaluable#2" in c[1] and "evaluable#1" in c[2]]
+            if crossed and not reads:
+                n += 1
+                res.add("C03.R6", f"{head}::second application", False, f"applied a second time, the matcher asks the new architecture about modules that were resolved against the first one (`{crossed[0][3].rsplit('::', 1)[-1]}`): imports of modules that exist only in the new architecture are missing from the report", crossed[0][3].split("::", 1)[0], kind="flow")
+                continue
             own = {sh.key for sh in matcher if isinstance(sh, Ref)}
             names = sorted({f for k, f in stale if k in own})
             n += 1
@@ -685,6 +956,65 @@ def run_r6(repo: Repo, res: Result) -> None:
                 detail = f"applied a second time, the matcher reads `{'`, `'.join(fields)}` as left behind by the first application (first read: {reads[0][1].split('::', 1)[1]}): module lists resolved against another architecture are re-used, so imports of modules that exist only in the new architecture are missing from the report"
             res.add("C03.R6", f"{head}::second application", ok, detail, reads[0][0] if reads else where(entry, entry.node), nontrivial=bool(names), kind="flow")
     res.floor("C03.R6", 2, n)
+    _run_r6_rule_level(repo, res, T, proto)
+
+
+# public fluent API (docs/, tests/): Rule().modules_that().are_named(..).should_not().import_modules_that().are_named(..)
+_FLUENT = (("modules_that", None), ("are_named", "pkg.subject"), ("should_not", None), ("import_modules_that", None), ("are_named", "pkg.object"))
+# ... and Rule().modules_that().have_name_matching(regex).should_not().import_anything()  (regex subjects + the 'anything' alias)
+_FLUENT_ALIAS = (("modules_that", None), ("have_name_matching", "pkg\\..*"), ("should_not", None), ("import_anything", None))
+
+
+def _run_r6_rule_level(repo: Repo, res: Result, T, proto: ClassInfo) -> None:
+    """The same obligation one level up: a rule object (the public object users keep and re-apply) that is applied to a second
+    architecture reads nothing derived from the first one and asks the second one nothing that was resolved against the first.
+    Only decided when the rule object can be configured through the public fluent API in the abstract; otherwise no obligation."""
+    bases = [c for c in repo.classes.values() if any(m.is_abstract and _public(repo, m) and any(_mentions_class(_ann(T, m, p), proto.fq) for p in m.params[1:]) for m in c.methods.values())]
+    seen: set = set()
+    for base in bases:
+        names = [m.name for m in base.methods.values() if m.is_abstract and _public(repo, m) and any(_mentions_class(_ann(T, m, p), proto.fq) for p in m.params[1:])]
+        for cls in _concrete_classes(repo, base):
+            if cls.fq in seen or cls.fq == base.fq:
+                continue
+            seen.add(cls.fq)
+            init = repo.lookup_method(cls, "__init__")
+            if init is not None and len(init.node.args.args) - 1 - len(init.node.args.defaults) > 0:
+                continue  # needs constructor arguments
+            for name, (label, fluent) in [(n_, sc_) for n_ in names for sc_ in (("", _FLUENT), (" [regex subjects, anything]", _FLUENT_ALIAS))]:
+                entry = repo.lookup_method(cls, name)
+                if entry is None or entry.is_abstract or not all(repo.lookup_method(cls, f) is not None for f, _ in fluent):
+                    continue
+                it = Interp(repo)
+                try:
+                    obj = it.instantiate(cls, lambda p, init: None, "rule")
+                    cur = obj
+                    for i, (f, arg) in enumerate(fluent):
+                        cur = it.call_method(cur, f, [V(Const(arg))] if arg is not None else [], f"fluent-{i}")
+                        cur = frozenset(sh for sh in cur if isinstance(sh, Ref) and sh.kind == "obj") or obj
+                    it.writes = set()
+                    it.scalar_calls = []
+                    arg1 = [V(Sc(srcs=frozenset({"evaluable#1"}))) if _mentions_class(_ann(T, entry, p), proto.fq) else V(Opaque(p.arg)) for p in entry.params[1:]]
+                    it.call_method(obj, name, arg1, "call-1")
+                    consulted = [c for c in it.scalar_calls if "evaluable#1" in c[1]]
+                    stale = {(k, f) for (k, f) in it.writes if _derives(it, it.cells[k].fields.get(f, E), "evaluable#1")}
+                    it.stale = set(stale)
+                    it.stale_reads = []
+                    arg2 = [V(Sc(srcs=frozenset({"evaluable#2"}))) if _mentions_class(_ann(T, entry, p), proto.fq) else V(Opaque(p.arg)) for p in entry.params[1:]]
+                    it.call_method(obj, name, arg2, "call-2")
+                except (RuntimeError, RecursionError, KeyError, AttributeError, TypeError, IndexError, ValueError):
+                    continue
+                if not consulted or not any("evaluable#2" in c[1] for c in it.scalar_calls):
+                    continue  # the abstract rule never reached a query: nothing to decide at this level
+                head = f"{entry.relpath}::{cls.name}.{name}"
+                reads = it.stale_reads
+                crossed = [c for c in it.scalar_calls if "evaluable#2" in c[1] and "evaluable#1" in c[2]]
+                ok = not reads and not crossed
+                detail = "a rule object applied to a second architecture re-creates everything it derives from the architecture"
+                if reads:
+                    detail = f"a rule object applied to a second architecture reads `{'`, `'.join(sorted({r[2] for r in reads}))}` as left behind by the first application (first read: {reads[0][1].split('::', 1)[1]}): the report is about the modules of the first architecture"
+                elif crossed:
+                    detail = f"a rule object applied to a second architecture asks it about modules that were resolved against the first one (`{crossed[0][3].rsplit('::', 1)[-1]}`)"
+                res.add("C03.R6", f"{head}::rule object applied twice{label}", ok, detail, reads[0][0] if reads else (crossed[0][3].split("::", 1)[0] if crossed else where(entry, entry.node)), kind="flow")
 
 
 def run(repo: Repo) -> Result:
@@ -701,7 +1031,12 @@ def run(repo: Repo) -> Result:
     )
     res.not_decided = "equality of the rendered set with a reference violating set on every graph (needs the values the searches compute)."
     res.trusted_base = ["engine search model (rules/search.py)", "abstract interpreter rules/c03_absint.py (joins over-approximate; unknown constructs give 'undecided', never a pass)", "guard implication"]
-    run_r1(repo, res)
+    try:
+        run_r1(repo, res)
+    except AnalysisError as e:
+        # the search model gave no verdict: R1 is undecided, R2 - R6 do not depend on it and are still decided (a violation found
+        # by them is reported; without one the check ends undecided, never silent)
+        res.undecide("C03.R1", "pytestarch/eval_structure/breadth_first_searches.py::search model", str(e), "")
     run_r2(repo, res)
     run_r3_r4(repo, res)
     run_r5(repo, res)
